@@ -32,6 +32,9 @@ type Pkg struct {
 	Name    string
 	Syms    map[string]*V
 	Exports []string
+	// Undetermined marks the stand-in for "the current package is not known" (see
+	// Interp.RefusedPackageOpsUnjudged): nothing may be resolved or bound through it.
+	Undetermined bool
 }
 
 // Probe is one effect-trace event of the model.
@@ -74,6 +77,22 @@ type Interp struct {
 	// builtins that call a callback in an order it does not predict when the callback
 	// fails whatever it is called with.
 	Routes bool
+	// RefusedPackageOpsUnjudged (named switch, off by default): the property says what
+	// in-package / use-package do when they succeed, not what a REFUSED call leaves
+	// behind.  With the switch on, the model does not follow the pinned implementation
+	// there (which creates the package, imports the language package and switches before
+	// it looks at the trailing arguments) but records the two unknowns and declines
+	// (Unsure) whenever an evaluation would depend on them:
+	//  - after an in-package refused for its trailing arguments the CURRENT PACKAGE is
+	//    undetermined until a successful in-package or the end of the enclosing load /
+	//    function body restores a known one;
+	//  - a package name that only refused in-package calls have mentioned so far is in LIMBO
+	//    (whether it exists is not judged) until a successful in-package enters it,
+	//    which then - by the property - yields a package with the language exports and
+	//    nothing else.
+	RefusedPackageOpsUnjudged bool
+	Limbo                     map[string]bool
+	RefusedCalls              int // refused package operations the model went through
 }
 
 const LangPkg = "lisp"
@@ -165,6 +184,9 @@ func (in *Interp) lookup(env *Env, name string, site *V) (*V, *Err) {
 		if v, ok := env.lookup(name); ok {
 			return v, nil
 		}
+		if in.Cur.Undetermined {
+			return nil, in.unsure("reference resolved in the package a refused in-package left current")
+		}
 		if v, ok := in.Cur.Syms[name]; ok {
 			return v, nil
 		}
@@ -176,6 +198,9 @@ func (in *Interp) lookup(env *Env, name string, site *V) (*V, *Err) {
 	ns, nm := name[:ci], name[ci+1:]
 	if strings.IndexByte(nm, ':') >= 0 {
 		return nil, in.siteErr(site, "illegal-symbol")
+	}
+	if in.Limbo[ns] {
+		return nil, in.unsure("reference into a package only refused calls have named")
 	}
 	p := in.Pkgs[ns]
 	if p == nil {
@@ -217,11 +242,17 @@ func (in *Interp) putGlobal(name string, v *V) *Err {
 		if name == "true" || name == "false" {
 			return in.errf("rebind-constant")
 		}
+		if in.Cur.Undetermined {
+			return in.unsure("binding made in the package a refused in-package left current")
+		}
 		in.Cur.Syms[name] = v
 		return nil
 	case 2:
 		if parts[0] == "" {
 			return in.errf("assign-keyword")
+		}
+		if in.Limbo[parts[0]] {
+			return in.unsure("binding made in a package only refused calls have named")
 		}
 		p := in.Pkgs[parts[0]]
 		if p == nil {
@@ -489,6 +520,9 @@ func (in *Interp) mkLambda(env *Env, formals *V, body []*V, kind FunKind) (*V, *
 		return nil, in.errf("formals-not-list")
 	}
 	in.funID++
+	if in.Cur.Undetermined {
+		return nil, in.unsure("function made in the package a refused in-package left current")
+	}
 	return &V{K: KFun, Fn: &Fun{Kind: kind, Params: formals.L, Body: body, Env: env, Pkg: in.Cur.Name, ID: in.funID}}, nil
 }
 
